@@ -52,7 +52,11 @@ def edit_source(r, src, state, force=None):
     """one burst of edits; every edit changes size or mtime of what it touches (the property's premise).
     state: rel -> (seed, size, mt_ns) of regular files"""
     log = []
-    files = sorted(state)
+    files = sorted(k for k in state if not k.startswith("\0"))
+    versions = state.setdefault("\0versions", {})      # (path, size, mtime) -> content seed of every version a path ever had
+
+    def fresh_mt(rel, size, mt, step):
+        return mt if mt > 0 else 10 * NS
     kinds = [r.choice(["create", "modsize", "samesize_later", "samesize_earlier", "delete", "rename", "dir2file", "file2dir", "create"]) for _ in range(r.randrange(1, 4))]
     if force and files:
         kinds.append(force)
@@ -62,7 +66,7 @@ def edit_source(r, src, state, force=None):
             rel = (d + "/" if d else "") + r.choice(["n1", "n2.txt", "n3.bin", "x y", "ü"])
             if rel in state or os.path.isdir(os.path.join(src, rel)) or any(os.path.isfile(os.path.join(src, *rel.split("/")[:i])) for i in range(1, len(rel.split("/")))):
                 continue
-            state[rel] = (r.randrange(1 << 30), r.choice([0, 7, 5000, 70000]), r.randrange(1000, 5000) * NS)
+            state[rel] = (r.randrange(1 << 30), r.choice([0, 7, 5000, 70000]), fresh_mt(rel, None, r.randrange(3_000_000, 5_000_000) * NS, 0))
             log.append(("create", rel))
         elif kind in ("modsize", "samesize_later", "samesize_earlier"):
             rel = r.choice(files)
@@ -70,11 +74,12 @@ def edit_source(r, src, state, force=None):
                 continue
             seed, size, mt = state[rel]
             if kind == "modsize":
-                state[rel] = (r.randrange(1 << 30), size + r.choice([1, 100, 4096]), mt + r.choice([0, 5 * NS]))
+                nsz = size + r.choice([1, 100, 4096])
+                state[rel] = (r.randrange(1 << 30), nsz, fresh_mt(rel, nsz, mt + r.choice([0, 5 * NS]), +NS))
             elif kind == "samesize_later":
-                state[rel] = (r.randrange(1 << 30), size, mt + r.choice([2 * NS, 86400 * NS]))
+                state[rel] = (r.randrange(1 << 30), size, fresh_mt(rel, size, mt + r.choice([2 * NS, 86400 * NS]), +NS))
             else:
-                state[rel] = (r.randrange(1 << 30), size, max(NS, mt - r.choice([2 * NS, 86400 * NS])))
+                state[rel] = (r.randrange(1 << 30), size, fresh_mt(rel, size, mt - r.choice([2 * NS, 86400 * NS]), -NS))
             log.append((kind, rel))
         elif kind == "delete":
             rel = r.choice(files)
@@ -100,16 +105,25 @@ def edit_source(r, src, state, force=None):
                 state.pop(rel)
                 state[rel + "/inner.txt"] = (r.randrange(1 << 30), 12, r.randrange(1000, 5000) * NS)
                 log.append(("file2dir", rel))
-        files = sorted(state)
+        files = sorted(k for k in state if not k.startswith("\0"))
     # materialise
     shutil.rmtree(src, ignore_errors=True)
     os.makedirs(src)
-    for rel, (seed, size, mt) in sorted(state.items()):
+    # the property's premise, globally: no two different versions of a path share mtime AND size (going back to an earlier
+    # (mtime, size) with other content is the undetectable case the premise excludes) -- enforced here for every kind of edit
+    for rel in [k for k in state if not k.startswith("\0")]:
+        seed, size, mt = state[rel]
+        while versions.get((rel, size, mt), seed) != seed:
+            mt += NS
+        versions[(rel, size, mt)] = seed
+        state[rel] = (seed, size, mt)
+    real = {k: v for k, v in state.items() if not k.startswith("\0")}
+    for rel, (seed, size, mt) in sorted(real.items()):
         p = os.path.join(src, rel)
         os.makedirs(os.path.dirname(p), exist_ok=True)
         with open(p, "wb") as f:
             f.write(world.pbytes(seed, size)); f.flush(); os.fsync(f.fileno())
-    for rel, (seed, size, mt) in state.items():
+    for rel, (seed, size, mt) in real.items():
         os.utime(os.path.join(src, rel), ns=(ew.T0NS + mt, ew.T0NS + mt))
     for dp, dns, fns in os.walk(src, topdown=False):
         os.utime(dp, ns=(ew.T0NS + 10 * NS, ew.T0NS + 10 * NS))      # directory mtimes do NOT move with the edits (worst case for a directory cache)
@@ -180,7 +194,7 @@ def run_history(sc, seed, i, known, stats):
         dmg = damage(r, db) if k > 1 and r.random() < 0.4 and i % 2 == 0 else []      # odd histories keep their files intact (hits need surviving rows)
         if name == "state" and k >= 2:
             # a VALID state file listing some current source paths as completed (public ResumeState API)
-            paths = [p for p in sorted(state) if r.random() < 0.5][:4]
+            paths = [p for p in sorted(k for k in state if not k.startswith("\0")) if r.random() < 0.5][:4]
             if paths:
                 vlib.run_sharded([os.path.join(vlib.BIN, "h_cache")], ["RS %s %d %s" % (db.encode().hex(), 1 if use_delete else 0, ",".join(p.encode().hex() for p in paths))], shards=1)
                 dmg.append(("valid-state", paths))
